@@ -21,6 +21,7 @@ type Opts struct {
 	TargetRaw       string        `json:"targetRaw,omitempty"`       // with TargetOpt "raw": cwd is the jail's target and this string is passed to WithTargetDir
 	PassEmptyTarget bool          `json:"passEmptyTarget,omitempty"` // pass WithTargetDir("") like the command line does when the flag is absent
 	EarlyOpts       bool          `json:"earlyOpts,omitempty"`       // the option values are constructed while the working directory is "/", the call runs in the case's own working directory
+	OptOrder        int           `json:"optOrder,omitempty"`        // >0: the option list is rotated by OptOrder/2 and reversed when odd (options may come in any order)
 	Color           bool          `json:"color,omitempty"`           // the call runs with colours enabled (fatih/color.NoColor == false), as when standard output is a terminal
 }
 
@@ -100,6 +101,8 @@ type Case struct {
 	MidProg    []AddStep `json:"midProg,omitempty"`    // From-Root only: Add calls made after the PreOps and before the operation under test
 	ZeroNode   bool      `json:"zeroNode,omitempty"`   // From-Root: the node handed over is new(gtree.Node), made by neither NewRoot nor Add
 	MidOps     []string  `json:"midOps,omitempty"`     // operations run after MidProg (the tree has grown since the PreOps); "other-<op>" runs <op> on an unrelated tree
+	FactOrder  int       `json:"factOrder,omitempty"`  // walks: k>0 = the six facts of every visited node are read in the (k-1)-th permutation of their declared order, and compared with a later re-read
+	CopyRoot   bool      `json:"copyRoot,omitempty"`   // From-Root: the node handed over is a copy by value of the root (cp := *root; &cp)
 	RangeTwice bool      `json:"rangeTwice,omitempty"` // walkiter: the same iterator value is ranged over a second time
 	Nest       int       `json:"nest,omitempty"`       // walkiter: k>0 = while the walk is at its visit k-1, another complete walk of the same tree runs (odd k: over the same iterator value, even k: over a new one)
 	NestBreak  bool      `json:"nestBreak,omitempty"`  // the inner walk is left after its first visit
